@@ -2,6 +2,7 @@
 C12 — the server applies exactly the filter and options the user specified.
 -/
 import DtailModel.Lemmas.Command
+import DtailModel.Lemmas.GenRegex
 namespace Dtail.C12
 open Dtail
 
@@ -177,5 +178,64 @@ theorem C12_roundtrip (env : Env) (b64enc : Bytes → Bytes) (show' : Int → By
 /-- non-vacuity: a pattern full of separators -/
 example : regexDeserialize ⟨fun _ => none, fun _ => true, fun _ => none, []⟩
     (regexSerialize (b!" a  b:c;d,e%f=g ") true) = .ok ⟨b!" a  b:c;d,e%f=g ", .invert⟩ := by decide
+
+/-! ### Tie G: internal/regex as translated from the working tree on this run -/
+
+/-- **`Regex.Match` is the first flag applied to the answer of the regexp engine** — for every regex value, every
+    line, every engine.  (A "fast path" that answers some expressions without the engine, a cache that shares flag
+    slices between values, a flag list consulted at another position: each changes the translated function and
+    this statement no longer proves.) -/
+theorem C12_generated_match (ext : Go.Ext) (r : Gen.Regex.Regex) (line : Go.GoString) :
+    Gen.Regex.Regex.Match ext r line = GenRegex.flagBit (Go.GoIndex.idx r.flags 0) (ext.reMatchRaw r.re line) :=
+  GenRegex.Match_spec ext r line
+
+/-- … and that reading of a flag is the model's `matchFlag` (C03) under the source's iota numbering -/
+theorem C12_generated_flag_is_model_flag (engine : Bool) :
+    GenRegex.flagBit Gen.Regex.Default engine = matchFlag .default engine ∧
+    GenRegex.flagBit Gen.Regex.Invert engine = matchFlag .invert engine ∧
+    GenRegex.flagBit Gen.Regex.Noop engine = matchFlag .noop engine ∧
+    GenRegex.flagBit Gen.Regex.Undefined engine = matchFlag .undefined engine := by
+  cases engine <;> decide
+
+/-- **The regex round trip on the translated code.**  For every expression (any bytes: blanks, ':', ';', ',',
+    '%', '=', non-ASCII) the regexp compiler accepts and either polarity: the filter the server rebuilds
+    (`Deserialize ∘ Serialize ∘ New`) selects exactly the lines the client's filter selects, for every line and
+    every regexp engine; no step reports an error.  The regexp compiler and engine are parameters. -/
+theorem C12_generated_regex_roundtrip (ext : Go.Ext) (p : Go.GoString) (c : Gen.Regex.Flag)
+    (hc : c = Gen.Regex.Default ∨ c = Gen.Regex.Invert)
+    (hcomp : (ext.reCompile p).2 = none) (hempty : (ext.reCompile []).2 = none) (line : Go.GoString) :
+    let cl := Gen.Regex.New ext p c
+    let wire := Gen.Regex.Regex.Serialize ext cl.1
+    let sv := Gen.Regex.Deserialize ext wire.1
+    cl.2 = none ∧ wire.2 = none ∧ sv.2 = none ∧
+      Gen.Regex.Regex.Match ext sv.1 line = Gen.Regex.Regex.Match ext cl.1 line :=
+  GenRegex.roundtrip ext p c hc hcomp hempty line
+
+/-- what is on the wire is the model's `regexSerialize` (the hand-written encoder of `C12_roundtrip`) -/
+theorem C12_generated_wire_is_model_wire (ext : Go.Ext) (p : Go.GoString) (invert : Bool)
+    (hcomp : (ext.reCompile p).2 = none) :
+    (Gen.Regex.Regex.Serialize ext (Gen.Regex.New ext p (if invert then Gen.Regex.Invert else Gen.Regex.Default)).1).1
+      = regexSerialize p invert := by
+  rw [GenRegex.New_spec ext p _ hcomp]
+  by_cases hn : p = [] ∨ p = [46] ∨ p = [46, 42]
+  · rw [if_pos hn, GenRegex.Serialize_spec ext _ rfl]
+    have hflags : (Gen.Regex.NewNoop ext).flags = [Gen.Regex.Noop] := rfl
+    have hstr : (Gen.Regex.NewNoop ext).regexStr = [] := rfl
+    simp only [hflags, hstr]
+    rcases hn with rfl | rfl | rfl <;> cases invert <;> decide
+  · rw [if_neg hn, GenRegex.Serialize_spec ext _ rfl]
+    have hmem : ¬ (p ∈ Facts.noopPatternsBytes) := by
+      simp only [not_or] at hn
+      simp [Facts.noopPatternsBytes, hn.1, hn.2.1, hn.2.2]
+    have hcf : clientFlag p invert = if invert then .invert else .default := by
+      unfold clientFlag
+      simp [hmem]
+    unfold regexSerialize
+    rw [hcf]
+    cases invert
+    · have : GenRegex.flagName Gen.Regex.Default = b!"default" := by decide
+      simp [this, flagName, joinByte, SP]
+    · have : GenRegex.flagName Gen.Regex.Invert = b!"invert" := by decide
+      simp [this, flagName, joinByte, SP]
 
 end Dtail.C12
